@@ -364,4 +364,17 @@ example : mkBilin 3 .cross (vf "F" .h1) (vf "F" .h1) = .ok E.zero
     ∧ bracketEval (mul [sf "f" .h1, sf "g" .h1]) (mul [sf "f" .h1, sf "g" .h1]) = E.zero :=
   ⟨rfl, rfl⟩
 
+/-- non-vacuity of the non-degeneracy side conditions (trivial without negative / symbolic powers;
+    with `f**(-1)` they ask `f` to be invertible): `curl(2*F + grad f)`, `rot(3*f + x)`,
+    and the `NonDegD` of the Div example above -/
+example (S : DRing K) :
+    NonDegG S 3 false (add [mul [num 2 1, vf "F" .h1], op1 .grad (sf "f" .h1)])
+    ∧ (∃ r, curlEval 3 (add [mul [num 2 1, vf "F" .h1], op1 .grad (sf "f" .h1)]) = .ok r)
+    ∧ NonDegG S 2 false (add [mul [num 3 1, sf "f" .h1], sym "x"])
+    ∧ (∃ r, linEval .rot (add [mul [num 3 1, sf "f" .h1], sym "x"]) = .ok r)
+    ∧ NonDegD S 3 false (add [mul [num 2 1, sf "f" .h1, vf "F" .h1],
+        op2 .cross (vf "F" .h1) (vf "G" .h1), op1 .curl (vf "G" .h1), mul [num 3 1, vf "G" .h1]]) := by
+  refine ⟨by simp [NonDegG, NonDegGList], ⟨_, rfl⟩, by simp [NonDegG, NonDegGList], ⟨_, rfl⟩, ?_⟩
+  simp [NonDegD, NonDegDList, NonDegG, NonDegGList]
+
 end Sympde
